@@ -431,10 +431,13 @@ class Nodes:
         wrapped_value = value
         ast_value = Nodes.typed_value(value)
         typ = type(ast_value)
+        # Build from the typed value:  the text "[1, 2]" is not a sequence of
+        # its characters, "{}" cannot be unpacked into pairs, and
+        # bool("false") is True.
         if typ is list:
-            wrapped_value = CommentedSeq(value)
+            wrapped_value = CommentedSeq(ast_value)
         elif typ is dict:
-            wrapped_value = CommentedMap(value)
+            wrapped_value = CommentedMap(ast_value)
         elif typ is str:
             wrapped_value = PlainScalarString(value)
         elif typ is int:
@@ -442,7 +445,7 @@ class Nodes:
         elif typ is float:
             wrapped_value = Nodes.make_float_node(ast_value)
         elif typ is bool:
-            wrapped_value = ScalarBoolean(bool(value))
+            wrapped_value = ScalarBoolean(ast_value)
         elif typ is date:
             wrapped_value = AnchoredDate(
                 value.year, value.month, value.day)
@@ -470,7 +473,11 @@ class Nodes:
 
         Raises:  N/A
         """
-        default_value = Nodes.wrap_type(value)
+        try:
+            default_value = Nodes.wrap_type(value)
+        except ValueError:
+            # e.g. "0x1F" which is an integer but not in base-10
+            default_value = PlainScalarString(value)
         segments = yaml_path.escaped
         if not (segments and len(segments) > depth):
             return default_value
